@@ -107,12 +107,15 @@ theorem lookup_uses_url_key (cfg : Cfg) (t0 : Int) (req : Req) (tr : List Step) 
 /-- Injectivity and completeness of the primary cache key, for all pairs of well-formed http(s) URLs:
     the keys coincide exactly when the URLs are equivalent under RFC 3986 §6.2.2–6.2.3 (scheme; host up
     to ASCII case; port up to the scheme default; path and query up to percent-encoding case and
-    escapes of unreserved ASCII; empty path = "/"). Hence URLs that differ in scheme, host (IPv6
+    escapes of unreserved ASCII; empty path = "/"; a path lacking its leading slash under a host —
+    `url.URL.JoinPath` on a base without a path — taken with the slash `url.URL.String` writes, `rootedPath`:
+    `WFUrl.pathAbs` asks for a rooted path OR a host, where it used to ask for a rooted path, a hypothesis the
+    pinned keyer needed: it glued host "a" and path "b/" to the key of host "ab"). Hence URLs that differ in scheme, host (IPv6
     literals included), port, path bytes or query bytes never share an index. -/
 theorem same_key_iff_equivalent (s1 h1 p1 q1 s2 h2 p2 q2 : Str) (w1 : WFUrl s1 h1 p1 q1) (w2 : WFUrl s2 h2 p2 q2) :
     makeURLKeyOf s1 h1 p1 q1 [] = makeURLKeyOf s2 h2 p2 q2 [] ↔
     (s1 = s2 ∧ keyHost h1 = keyHost h2 ∧ effPort s1 h1 = effPort s2 h2 ∧
-     keyPath s1 p1 = keyPath s2 p2 ∧
+     keyPath s1 (rootedPath h1 p1) = keyPath s2 (rootedPath h2 p2) ∧
      normalizePercentEncoding q1 = normalizePercentEncoding q2) := by
   constructor
   · exact key_injective _ _ _ _ _ _ _ _ w1 w2
@@ -138,15 +141,26 @@ theorem empty_query_is_not_no_query (s h p : Str) :
 example : WFUrl (str% "https") (str% "[::1]:8443") (str% "/a%2fb/") (str% "x=%e9") where
   scheme := Or.inr rfl
   hostNoSlash := by decide
-  pathAbs := Or.inr ⟨_, rfl⟩
+  pathAbs := Or.inr (Or.inr ⟨_, rfl⟩)
   pathNoQ := by decide
   hostNoPort := noPortSuffix_of_bracket _ (by decide)
 example : WFUrl (str% "http") (str% "A.test:80") [] (str% "q=1") where
   scheme := Or.inl rfl
   hostNoSlash := by decide
-  pathAbs := Or.inl rfl
+  pathAbs := Or.inr (Or.inl rfl)
   pathNoQ := by decide
   hostNoPort := noPortSuffix_of_no_colon _ (by decide)
+/-- a path without its leading slash under a host is well-formed too -/
+example : WFUrl (str% "http") (str% "a") (str% "b.test/x") [] where
+  scheme := Or.inl rfl
+  hostNoSlash := by decide
+  pathAbs := Or.inl (by decide)
+  pathNoQ := by decide
+  hostNoPort := noPortSuffix_of_no_colon _ (by decide)
+/-- … and host and path do not run together: host "a" with path "b.test/x" is "http://a/b.test/x", not the
+    key of host "ab.test" (on the pinned tree the two were one key) -/
+example : makeURLKeyOf (str% "http") (str% "a") (str% "b.test/x") [] [] = (str% "http://a/b.test/x") ∧
+          makeURLKeyOf (str% "http") (str% "a") (str% "b.test/x") [] [] ≠ makeURLKeyOf (str% "http") (str% "ab.test") (str% "/x") [] [] := by decide
 
 /-- Regression examples for the two defects of the pinned tree (tests, not the general claim):
     %E9 stays an escape (it used to become the UTF-8 bytes of U+00E9), %7e is decoded, the
